@@ -18,23 +18,25 @@ from pbt.core import V, Part, exc_sig, exc_origin
 ID = "C14"
 LEVEL = "exploration"
 RULE = ("Hypothesis draws 1..16 component functions (families: linear, cubic with one real root, three-root polynomial, tanh, "
-        "expm1, jump with sign change, sign-definite, double root, root at a bracket end), scale 1e-6..1e9 of either sign, root "
-        "magnitude 0 or 1e-3..1e3, bracket widths 1e-3..1e2 in either order, tolerance None..1e-3, dtype. Distinct = SHA-1 of the "
+        "expm1, jump with sign change, piecewise linear with a kink at the root, sign-definite, double root, root at a bracket end), scale 1e-200..1e150 of either sign, root "
+        "magnitude 0 or 1e-3..1e3, bracket widths 1e-3..1e2 (a sixth: up to 1e6) in either order, tolerance None..1e-3, dtype. Distinct = SHA-1 of the "
         "case JSON. Non-trivial = some component with scale outside [0.1, 10], or a jump, or a reversed bracket, or a root at an end.")
 ASSUMPTIONS = ["sign changes of each family are known exactly from its parameters after rounding them to the working dtype",
                "tolerance semantics: relative to max(1, |x|), floor 4 eps (the solvers' own documented floor D.epsilon)"]
 
 DT = {"float32": np.float32, "float64": np.float64, "longdouble": np.longdouble}
-FAMILIES = ["lin", "cubic", "poly3", "tanh", "expm1", "jump", "definite", "double", "end", "both_ends"]
+FAMILIES = ["lin", "cubic", "poly3", "tanh", "expm1", "jump", "definite", "double", "end", "both_ends", "kink"]
 
 
 @st.composite
 def _component(draw):
     fam = draw(st.sampled_from(FAMILIES))
-    s = draw(st.sampled_from([1.0, 1.0, 1e-6, 1e-3, 0.1, 10.0, 1e3, 1e6, 1e9])) * draw(st.sampled_from([1.0, -1.0]))
+    # (scales whose products f(a) f(b) leave the range of the working precision included: 1e-170 ** 2 underflows in double)
+    s = draw(st.sampled_from([1.0, 1.0, 1e-6, 1e-3, 0.1, 10.0, 1e3, 1e6, 1e9, 1e-30, 1e-170, 1e-200, 1e150])) * draw(st.sampled_from([1.0, -1.0]))
     r = draw(st.one_of(st.just(0.0), st.floats(1e-3, 1e3), st.floats(-1e3, -1e-3), st.sampled_from([0.3, 1.0, -2.5, 100.0])))
-    wl = 10.0 ** draw(st.floats(-3, 2))
-    wr = 10.0 ** draw(st.floats(-3, 2))
+    wide = draw(st.integers(0, 5)) == 0          # brackets many orders of magnitude wider than the distance that matters
+    wl = 10.0 ** draw(st.floats(-3, 6 if wide else 2))
+    wr = 10.0 ** draw(st.floats(-3, 6 if wide else 2))
     k = draw(st.sampled_from([1.0, 10.0, 1e3, 1e6, 0.01]))
     return dict(fam=fam, s=s, r=r, wl=wl, wr=wr, k=k, c=draw(st.sampled_from([0.5, 1.0, 4.0])),
                 rev=draw(st.booleans()), gap=draw(st.floats(0.05, 0.45)))
@@ -65,6 +67,10 @@ class Fn(object):
         self.p = p
         self.dt = dt
         self.s = T(p["s"])
+        if not np.isfinite(self.s) or self.s == 0:
+            # the drawn scale leaves the range of the working precision (1e150 or 1e-170 in float32): the nearest scale whose
+            # SQUARE still leaves it, so that f itself stays finite and non-zero
+            self.s = T(np.sign(p["s"]) * (1e30 if abs(p["s"]) > 1 else 1e-30))
         self.r = T(p["r"])
         self.k = T(p["k"])
         self.c = T(p["c"])
@@ -115,6 +121,9 @@ class Fn(object):
             return self.s * np.expm1(np.clip(self.k * d, -50, 50))
         if fam == "jump":
             return self.s * (T(1) if d >= 0 else T(-1)) * (T(1) + np.abs(d))
+        if fam == "kink":
+            # continuous, piecewise linear, slopes s and s k on the two sides of the root
+            return self.s * (self.k * d if d > 0 else d)
         if fam == "definite":
             return self.s * (d * d + self.c)
         if fam == "double":
